@@ -160,6 +160,31 @@ def check_fresh(case, stats):
                 diff_text([d2, p2], [rename(doc), rename(pickles)], "subclass run", "renamed standard run")))
 
 
+def check_many_ids(case, stats):
+    """one generator hands out far more ids than any block size someone might pick (70 000 table rows): dense, in order, references resolve"""
+    n = case["rows"]
+    text = "Feature: f\n Scenario: s\n  Given t\n" + "   | r |\n" * n + " Scenario Outline: o\n  Given <a>\n  Examples:\n   | a |\n" + "   | v |\n" * 40
+    stats.case(("many-ids", n), True, sample=case)
+    r = gh.parse_and_compile(text)
+    if r[0] != "ok":
+        raise Violation(case, "document with %d table rows rejected: %r" % (n, r[1][:2]))
+    doc, pickles = r[1], r[2]
+    rows = doc["feature"]["children"][0]["scenario"]["steps"][0]["dataTable"]["rows"]
+    ids = [int(x["id"]) for x in rows]
+    if ids != list(range(n)):
+        i = next(i for i, v in enumerate(ids) if v != i)
+        raise Violation(case, "table row #%d of %d has id %d (ids are handed out 0, 1, 2, ... without gaps)" % (i, n, ids[i]))
+    allids = sorted(int(x) for x in collect_ids([{"gherkinDocument": doc}] + [{"pickle": p} for p in pickles], []))
+    if allids != list(range(len(allids))):
+        raise Violation(case, "ids of a document with %d rows are not 0..%d without gaps (first gap near %d)" % (n, len(allids) - 1, next(i for i, v in enumerate(allids) if v != i)))
+
+
+def unit_many_ids(a):
+    stats = Stats()
+    sweep(stats, [{"sub": "many-ids", "rows": n, "budget_s": 120} for n in a["rows"]], check_many_ids)
+    return stats
+
+
 def unit_fresh(a):
     stats = Stats()
     hyp(stats, model.st_doc().map(lambda d: {"sub": "fresh", "doc": d}), check_fresh, a["n"], shard_seed(a["seed"], a["shard"], 11))
@@ -365,6 +390,8 @@ def unit_history(a):
 
 
 def replay(case, stats):
+    if case.get("sub") == "many-ids":
+        return check_many_ids(case, stats)
     return {"fresh": check_fresh, "history": check_history, "defaults": check_defaults, "script-ids": check_script_ids}[case["sub"]](case, stats)
 
 
@@ -372,6 +399,7 @@ def run(ctx):
     q = ctx.quick
     ctx.units("corpus", unit_corpus, [{}])
     ctx.units("default-generators", unit_defaults, [{}])
+    ctx.units("many-ids", unit_many_ids, [{"rows": [70000] if q else [70000, 140000]}])
     from . import magnitude
     magnitude.run_big(ctx, "c11", "check_fresh", "fresh")
     ctx.units("fresh-generator-model-docs", unit_fresh, [{"n": 600 if q else 6000, "seed": ctx.seed, "shard": i} for i in range(8 if q else 16)], procs=16)
